@@ -15,6 +15,11 @@ d = tempfile.mkdtemp(prefix='seed_', dir='/tmp')
 try:
     subprocess.check_call(['rsync', '-a', '--exclude', '.git', '--exclude', '__pycache__', '/repo/', d + '/'])
     env = dict(os.environ, PYTHONPATH=d, PYTHONDONTWRITEBYTECODE='1')
+    # demos may name their worktree explicitly: run a copy that points at the scratch copy instead
+    demo_txt = open(src['demo']).read().replace(wt, d).replace('/repo', d)
+    src_demo_orig = src['demo']
+    src['demo'] = os.path.join(d, '_seeded_demo.py')
+    open(src['demo'], 'w').write(demo_txt)
     demo_clean = subprocess.run(['/venv/bin/python', src['demo']], cwd=d, env=env, capture_output=True, text=True)
     ap = subprocess.run(['patch', '-p1', '-s', '-i', src['patch']], cwd=d, capture_output=True, text=True)
     if ap.returncode:
@@ -37,7 +42,7 @@ try:
             'checks': res, 'caught_by': sorted(c for c, r in res.items() if r['exit'] == 1)}
     os.makedirs(dst, exist_ok=True)
     if src['patch'] != f'{dst}/patch.diff':
-        shutil.copy(src['patch'], f'{dst}/patch.diff'); shutil.copy(src['demo'], f'{dst}/demo.py')
+        shutil.copy(src['patch'], f'{dst}/patch.diff'); shutil.copy(src_demo_orig, f'{dst}/demo.py')
     json.dump(meta, open(f'{dst}/meta.json', 'w'), indent=1)
     print(pid, k, 'valid' if valid else f'INVALID(suite={suite.returncode},demo_with={demo_mut.returncode},demo_without={demo_clean.returncode})',
           {c: (r['exit'], r['signatures'][:1]) for c, r in res.items()})
